@@ -388,6 +388,11 @@ def maps(lie):
     out["sln_adjoint[2]/glc"] = (lie.sln_adjoint, ("glc", 2), "sln_adjoint")
     for n in range(1, 5):
         out["slc_to_slr[%d]" % n] = (lie.slc_to_slr, ("glc", n), "slc_to_slr")
+    # real-dtype input is complex input with zero imaginary part: the same block
+    # form, and products with complex factors must still go to products (seeded
+    # change C17-r6-1: an interleaved realification A (x) I_2 for real dtypes)
+    for n in range(1, 5):
+        out["slc_to_slr[%d]/real-dtype" % n] = (lie.slc_to_slr, ("gl", n), "slc_to_slr")
     for n, d in ((1, 2), (2, 3), (2, 5), (3, 3), (3, 6), (4, 5)):
         out["block_include[%d->%d]" % (n, d)] = (
             lambda A, d=d: lie.block_include(A, d), ("gl", n), "block_include")
@@ -558,7 +563,19 @@ def wl_float(run, rng, idx):
         f, kind, fname = table[label]
         A = draw(rng, kind, shape, cond)
         B = draw(rng, kind, shape, cond)
-        case = {"map": label, "A": A, "B": B, "class": cls, "batch_shape": list(shape)}
+        mixed = False
+        if idx % 2 and isinstance(kind, tuple) and kind[0] in ("gl", "glc", "sl", "slc"):
+            # factors of different dtype: a real matrix is a complex matrix with zero
+            # imaginary part, so the product law must hold across the two (seeded
+            # change C17-r6-1: another -- conjugate -- realification for real dtypes)
+            other = {"gl": "glc", "glc": "gl", "sl": "slc", "slc": "sl"}[kind[0]]
+            try:
+                B = draw(rng, (other, kind[1]), shape, cond)
+                mixed = True
+            except Exception:
+                mixed = False
+        case = {"map": label, "A": A, "B": B, "class": cls, "batch_shape": list(shape),
+                "mixed_dtypes": mixed}
         run.current_case = case
         PA = call_map(run, mon, f, fname, label, A, "A", shape)
         if PA is None:
@@ -574,8 +591,16 @@ def wl_float(run, rng, idx):
                      "%s: input batch shape %r but result shape %r" % (label, shape, PAn.shape),
                      case)
             continue
-        mon.judge(hom_residual(PA, PB, PAB), tol, "hom-law/%s/product/%s" % (fname, cls),
+        mon.judge(hom_residual(PA, PB, PAB), tol,
+                  "hom-law/%s/product/%s%s" % (fname, cls, "/mixed-dtypes" if mixed else ""),
                   "%s: phi(AB) != phi(A) phi(B)" % label, case)
+        if mixed and not np.iscomplexobj(A):
+            # and the image does not depend on the dtype the same numbers arrive in
+            PAc = call_map(run, mon, f, fname, label, A.astype(complex), "A as complex", shape)
+            if PAc is not None:
+                mon.judge(lr.rel_diff(PAc, PA, np.maximum(1.0, norm2(A))), tol,
+                          "hom-law/%s/dtype-dependent" % fname,
+                          "%s: phi(A) differs from phi(A.astype(complex))" % label, case)
         PIn = lr.as_numeric(PI)
         d = PIn.shape[-1]
         mon.judge(float(np.max(lr.mnorm(PIn - np.eye(d)))) if PIn.size else 0.0, 1e-12,
